@@ -54,6 +54,15 @@ PROPS = {
         'whitelist': WL_MOVEGEN, 'trusted_base': TB_COMMON, 'dropped': DROPPED_COMMON,
         'explanation': 'wip', 'assumptions': [], 'not_decided': [],
     },
+    'C10': {
+        'verus': [{'name': 'draw', 'build': b_draw, 'rlimit': 30}],
+        'whitelist': WL_ATTACK,
+        'trusted_base': TB_COMMON + ["vstd's model of std::collections::HashMap (u64 keys obey the key model)"],
+        'dropped': DROPPED_COMMON + ['DrawTable::remove_board_from_draw_table (Some(&val) pattern unsupported by Verus)'],
+        'explanation': 'exact per-operation counts of the repetition table with frame; seen >= 2 <=> draw',
+        'assumptions': ['positions are identified with their 64-bit keys (collisions not excluded)'],
+        'not_decided': ['play_out_position clear/insert/add loop (string code)', 'search clause: score never below zero when a repetition is available (search is outside both verifiers)'],
+    },
     'C14': {
         'verus': [{'name': 'eval', 'build': b_eval, 'rlimit': 60}],
         'whitelist': WL_ATTACK,
